@@ -14,3 +14,4 @@ import Scfg.Props.C12
 import Scfg.Props.C15
 import Scfg.Props.C17
 import Scfg.Props.C08
+import Scfg.Props.C10
